@@ -1,30 +1,36 @@
 (* line protocol (one history per line, blank separated; '-' = empty list):
-     <superuser 0|1> <umask> <ids that cannot be created, comma sep> <files p:cid:mode:owned:isdir,...> <query ids, comma sep> <cfg> ...
-   cfg = class/allow/dryrun/linepps/filemodes(+ sep)/gen_support/gen_types/support(p:t + sep)/types(+ sep)/resmode
-   output: one line, steps separated by '|':  <ok|exists|err> p=cid:mode:isdir ... (p=- when absent) *)
+     <superuser 0|1> <umask> <root writable 0|1> <ancestors p=a+b+..,...> <child p=q,...> <entries p:cid:mode:owned:isdir,...>
+     <query ids, comma sep> <event> ...
+   event = R/<cfg>  |  C:<n>:<j>:<junk or ->/<cfg>
+   cfg = class/allow/dryrun/linepps/filemodes(+ sep)/gensup(always|never|asneeded|only)/omit/sersup(p:t + sep)/typesup/types(+ sep)/resmode
+   output: one line, events separated by '|':  <ok|exists|err|crash> p=cid:mode:isdir ... (p=- when absent) *)
 open Model
 
 let rec pos_of_int n = if n = 1 then XH else if n land 1 = 0 then XO (pos_of_int (n lsr 1)) else XI (pos_of_int (n lsr 1))
 let n_of_int n = if n = 0 then N0 else Npos (pos_of_int n)
 let rec int_of_pos = function XH -> 1 | XO p -> 2 * int_of_pos p | XI p -> 2 * int_of_pos p + 1
 let int_of_n = function N0 -> 0 | Npos p -> int_of_pos p
+let rec nat_of_int n = if n <= 0 then O else S (nat_of_int (n - 1))
 
 let split c s = if s = "-" || s = "" then [] else String.split_on_char c s
 let ints c s = List.map int_of_string (split c s)
 let b s = s = "1"
 
-(* content id of generated text: injective in (class, path) and disjoint from the ids of foreign contents (< 1000000) *)
-let render c p = n_of_int (1000000 + int_of_n c * 10000 + int_of_n p)
+(* content id of generated text: a function of (class, path) only, disjoint from the ids of foreign contents (< 1000000) *)
+let render _ _ c p = n_of_int (1000000 + int_of_n c * 10000 + int_of_n p)
+
+let pairs s = List.map (fun t -> match String.split_on_char ':' t with
+    | [p; k] -> (n_of_int (int_of_string p), b k) | _ -> failwith "support") (split '+' s)
 
 let parse_cfg s =
   match String.split_on_char '/' s with
-  | [cl; allow; dry; lpp; modes; gs; gt; sup; typ; rm] ->
-    { c_class = n_of_int (int_of_string cl); c_allow = b allow; c_dryrun = b dry; c_linepps = b lpp;
+  | [cl; allow; dry; lpp; modes; gs; omit; ser; typ; types; rm] ->
+    { c_class = n_of_int (int_of_string cl); c_amb = N0; c_allow = b allow; c_dryrun = b dry; c_linepps = b lpp;
       c_filepps = List.map (fun m -> n_of_int m) (ints '+' modes);
-      c_gen_support = b gs; c_gen_types = b gt;
-      c_support = List.map (fun t -> match String.split_on_char ':' t with
-                                     | [p; k] -> (n_of_int (int_of_string p), b k) | _ -> failwith "support") (split '+' sup);
-      c_types = List.map n_of_int (ints '+' typ);
+      c_gensup = (match gs with "always" -> GSAlways | "never" -> GSNever | "asneeded" -> GSAsNeeded | "only" -> GSOnly
+                              | _ -> failwith "gensup");
+      c_omit = b omit; c_sersup = pairs ser; c_typesup = pairs typ;
+      c_types = List.map n_of_int (ints '+' types);
       c_resmode = n_of_int (int_of_string rm) }
   | _ -> failwith ("cfg " ^ s)
 
@@ -34,10 +40,14 @@ let () =
       let line = String.trim (input_line stdin) in
       (try
         match List.filter (fun t -> t <> "") (String.split_on_char ' ' line) with
-        | su :: um :: nocreate :: files :: query :: cfgs ->
-          let nc = ints ',' nocreate in
-          let e = { superuser = b su; umask = n_of_int (int_of_string um);
-                    can_create = (fun p -> not (List.mem (int_of_n p) nc)) } in
+        | su :: um :: rw :: anc :: chl :: files :: query :: evs ->
+          let anc_tab = List.map (fun t -> match String.split_on_char '=' t with
+              | [p; l] -> (int_of_string p, List.map n_of_int (ints '+' l)) | _ -> failwith "anc") (split ',' anc) in
+          let chl_tab = List.map (fun t -> match String.split_on_char '=' t with
+              | [p; q] -> (int_of_string p, n_of_int (int_of_string q)) | _ -> failwith "child") (split ',' chl) in
+          let e = { superuser = b su; umask = n_of_int (int_of_string um); root_writable = b rw;
+                    ancestors = (fun p -> try List.assoc (int_of_n p) anc_tab with Not_found -> []);
+                    child = (fun p -> try List.assoc (int_of_n p) chl_tab with Not_found -> N0) } in
           let s0 = List.fold_left (fun s t ->
               match String.split_on_char ':' t with
               | [p; c; m; o; d] -> upd s (n_of_int (int_of_string p))
@@ -48,11 +58,22 @@ let () =
               match s (n_of_int p) with
               | None -> Printf.sprintf "%d=-" p
               | Some f -> Printf.sprintf "%d=%d:%d:%d" p (int_of_n f.f_cid) (int_of_n f.f_mode) (if f.f_isdir then 1 else 0)) qs) in
-          let _, outs = List.fold_left (fun (s, acc) cs ->
-              let c = parse_cfg cs in
-              let (s', r) = step render e s c in
-              let rn = match r with Ok -> "ok" | Err EExists -> "exists" | Err _ -> "err" in
-              (s', (rn ^ " " ^ show s') :: acc)) (s0, []) cfgs in
+          let _, outs = List.fold_left (fun (s, acc) ev ->
+              match String.index_opt ev '/' with
+              | None -> failwith "event"
+              | Some i ->
+                let head = String.sub ev 0 i and cs = String.sub ev (i + 1) (String.length ev - i - 1) in
+                let c = parse_cfg cs in
+                if head = "R" then
+                  let (s', r) = step render e s c in
+                  let rn = match r with Ok -> "ok" | Err EExists -> "exists" | Err _ -> "err" in
+                  (s', (rn ^ " " ^ show s') :: acc)
+                else (match String.split_on_char ':' head with
+                  | ["C"; n; j; junk] ->
+                    let jk = if junk = "-" then None else Some (n_of_int (int_of_string junk)) in
+                    let s' = step_crash render e s c (nat_of_int (int_of_string n)) (nat_of_int (int_of_string j)) jk in
+                    (s', ("crash " ^ show s') :: acc)
+                  | _ -> failwith "event head")) (s0, []) evs in
           print_string (String.concat " | " (List.rev outs) ^ "\n")
         | _ -> print_string "ERR short line\n"
       with Failure m -> print_string ("ERR " ^ m ^ "\n"))
